@@ -128,6 +128,86 @@ func init() {
 		n, err := sw.adapter(a[4].Int()).(io.ReaderFrom).ReadFrom(sr)
 		return writerResult(n, err, sw, true)
 	})
+	// acc.run <pred kind> <k> <ops>: ops [0 pkt] WritePacket, [1] Reset, [2] Bytes, [3] Packets
+	register("acc.run", func(a []Val) Val {
+		kind, k := a[0].Int(), a[1].Int()
+		pred := func(data []byte) (bool, error) {
+			big := len(data) >= k
+			switch kind {
+			case 0:
+				return big, nil
+			case 1:
+				return false, nil
+			case 2:
+				return true, nil
+			case 3:
+				if big {
+					return false, errPred
+				}
+				return false, nil
+			case 4:
+				if big {
+					return true, errPred
+				}
+				return false, nil
+			}
+			return len(data) > 0 && int(data[len(data)-1]) == ((k%256)+256)%256, nil
+		}
+		acc := packet.NewAccumulator(pred)
+		outs := []Val{}
+		for _, o := range a[2].L {
+			switch o.L[0].Int() {
+			case 0:
+				var pkt packet.Packet
+				if len(o.L[1].B) != packet.PacketSize {
+					return VBad()
+				}
+				copy(pkt[:], o.L[1].B)
+				snap := pkt
+				n, err := acc.WritePacket(&pkt)
+				e := VI(0)
+				if err != nil {
+					e = VI(int64(ioErrCode(err)))
+				}
+				outs = append(outs, VL(VI(0), VI(int64(n)), e, VBool(pkt == snap)))
+				// the accumulator must hold a copy: whatever the caller does to its packet
+				// afterwards must not show in later Bytes()/Packets()
+				for i := range pkt {
+					pkt[i] ^= 0xa5
+				}
+			case 1:
+				acc.Reset()
+				outs = append(outs, VL(VI(1)))
+			case 2:
+				b := acc.Bytes()
+				keep := append([]byte{}, b...)
+				for i := range b {
+					b[i] ^= 0xff
+				}
+				again := acc.Bytes()
+				outs = append(outs, VL(VI(2), VB(keep), VBool(string(again) == string(keep))))
+			case 3:
+				ps := acc.Packets()
+				vals := make([]Val, 0, len(ps))
+				for _, p := range ps {
+					vals = append(vals, VB(p[:]))
+				}
+				// the returned slice is the caller's: replacing its elements must not change the accumulator's list
+				for i := range ps {
+					ps[i] = &packet.Packet{}
+				}
+				again := acc.Packets()
+				same := len(again) == len(vals)
+				for i := 0; same && i < len(again); i++ {
+					same = string(again[i][:]) == string(vals[i].B)
+				}
+				outs = append(outs, VL(VI(3), Val{K: 2, L: vals}, VBool(same)))
+			default:
+				return VBad()
+			}
+		}
+		return VOk(Val{K: 2, L: outs})
+	})
 }
 
 // scriptReader: the reader oracle of Model/PacketWriter.v (rd_read).
